@@ -977,6 +977,13 @@ func (k *checker) search(s Search) (nt bool, f *fw.Failure) {
 				k.env.Rec.Add("search_results_differ_under_unevaluable_condition", 1)
 				return false, nil
 			}
+			if semkit.ExclusionBelow(k.c.World.Model, it.Resource.Type+":"+it.Resource.ID, it.Action.Name) || semkit.HasExclusion(k.c.World.Model) {
+				// ListUsers' answer on a model with an exclusion below the queried relation depends on the order
+				// in which its workers report (recorded under C06): two calls need not agree with each other
+				k.class("subject-search-unjudged:listusers-order-dependent-under-exclusion")
+				k.env.Rec.Add("subject_search_differs_on_exclusion_model", 1)
+				return false, nil
+			}
 			return false, k.fail(k.searchSig("C32/subject-search-mismatch"), "SubjectSearch(%s): ListUsers(%s#%s, filter %s, ctx=%v) = %v but AuthZEN returned %v", js(it), it.Resource.Type+":"+it.Resource.ID, it.Action.Name, it.Subject.Type, ctx, semkit.SortedSet(want), semkit.SortedSet(got))
 		}
 		if len(want) > 0 {
